@@ -28,6 +28,7 @@ from __future__ import annotations
 import asyncio
 import hashlib
 import itertools
+import os
 
 from .. import core, explore
 from ..harness import c07_wire as wire
@@ -65,7 +66,8 @@ def master(n):
 
 
 def stream_bytes(lane: int, total: int) -> bytes:
-    off = 4099 * lane + 17
+    # VERIF_SEED only picks which slice of the master string is used as fill bytes
+    off = 4099 * lane + 17 + 131 * (int(os.environ.get('VERIF_SEED', '0') or 0) % 64)
     m = master(off + total)
     return m[off : off + total]
 
@@ -114,10 +116,6 @@ class Tap:
             return real_send(connection_handle, wire.translate(sdu, False, SHIM_DELTA))
 
         def on_l2cap_pdu(connection, cid, pdu):
-            # a PDU longer than 65535 bytes never arrives (see transport_pdu_over_65535): keep the FIFO pairing in step
-            q = mon.inflight[side]
-            while q and q[0].get('kind') == 'data' and 4 + len(q[0]['payload']) > 65535 and (q[0]['cid'] != cid or q[0]['payload'] != pdu):
-                q.pop(0)
             d = mon.delivered(side)
             if d is not None and shim is None:
                 # harness self-check: FIFO pairing of sent and delivered frames
@@ -150,7 +148,6 @@ def run_case(case, prefix=None, fp=None, want_obs=False):
     style = case.get('style', 'yield')
     early = case.get('early', False)
     viol = []
-    over_lanes = set()
     lost_lanes = set()
     acl = acl_len_for(case)
     with World(2, controller_attrs={0: {'le_acl_data_packet_length': acl}, 1: {'le_acl_data_packet_length': acl}}) as w:
@@ -276,8 +273,6 @@ def run_case(case, prefix=None, fp=None, want_obs=False):
                 want = data[key]
                 have = bytes(got[key])
                 lsig = dict(sigbase, dir=direction)
-                if dr is not None and dr.max_pdu > 65535:
-                    over_lanes.add(key)
                 onwire = bytes(dr.stream) if dr is not None else b''
                 wire_ok = onwire == want
                 # (1) the bytes carried by the data frames are a prefix of the bytes written (sender side of the stream)
@@ -293,7 +288,7 @@ def run_case(case, prefix=None, fp=None, want_obs=False):
                     )
                 # (2) what the sink got is exactly what the completed SDUs on the wire carry (receiver side)
                 expect_sink = onwire[: dr.complete_len] if dr is not None else b''
-                if have != expect_sink and key not in over_lanes:
+                if have != expect_sink:
                     first = next((j for j, (a, b) in enumerate(zip(have, expect_sink)) if a != b), min(len(have), len(expect_sink)))
                     cls = 'lost' if len(have) < len(expect_sink) else ('extra' if len(have) > len(expect_sink) else 'altered')
                     viol.append(
@@ -307,7 +302,7 @@ def run_case(case, prefix=None, fp=None, want_obs=False):
                     if cls == 'lost':
                         lost_lanes.add(key)
                 # (3) progress: everything written arrives and drain() returns
-                if (not done[key] or len(have) < len(want)) and key not in over_lanes:
+                if not done[key] or len(have) < len(want):
                     ledger = (dr.granted - dr.sent) if dr is not None else None
                     if dr is None:
                         cause = 'no_channel_on_wire'
@@ -334,19 +329,6 @@ def run_case(case, prefix=None, fp=None, want_obs=False):
         for e in tap.harness_errors:
             viol.append(('harness_tap', {'what': 'tap'}, e))
         excs = loop.collect_exceptions()
-        if over_lanes:
-            # an L2CAP PDU longer than 65535 bytes was sent (K-frame payload > 65531): the virtual controller hands a
-            # received PDU to its host as ONE HCI ACL packet (controller.py on_link_acl_data, 'TODO: should fragment'),
-            # whose 16-bit length field cannot hold it.  Transport defect (C05 territory), reported under its own signature.
-            lost = [e for e in excs if 'link.py' in str(e[0]) and e[1].startswith('error(')]
-            excs = [e for e in excs if e not in lost]
-            viol.append(
-                (
-                    'transport_pdu_over_65535',
-                    {'what': 'l2cap_pdu_gt_65535_not_carried_by_virtual_controller'},
-                    f'lanes {sorted(over_lanes)} sent an L2CAP PDU of more than 65535 bytes; {len(lost)} were dropped by the receiving controller: {lost[:1]} | {mon.trace()}',
-                )
-            )
         for msg, exc in excs:
             viol.append(('exception', dict(sigbase, what='exception', exc=exc.split('(')[0]), f'{msg}: {exc} | {mon.trace()}'))
         for t in writer_tasks:
@@ -481,7 +463,8 @@ def early_configs(quick):
     for kind in KINDS:
         for t in (DEF, (23, 23, 1)) if quick else (DEF, (23, 23, 1), (100, 23, 2)):
             for ws in ([10, 20], [t[0] + 1]) if quick else ([10], [10, 20], [t[0] + 1]):
-                out.append(({'kind': kind, 'shim': 'off', 'c': t, 's': t, 'wc': [5], 'ws': ws, 'style': 'yield', 'early': True, 'acl': 27}, 1 if quick or kind == 'enh2' else 2))
+                deep = not quick and kind != 'enh2' and t == (23, 23, 1) and ws == [10, 20]
+                out.append(({'kind': kind, 'shim': 'off', 'c': t, 's': t, 'wc': [5], 'ws': ws, 'style': 'yield', 'early': True, 'acl': 27}, 2 if deep else 1))
     return out
 
 
